@@ -183,13 +183,8 @@ func newC04Ctx(p *kit.Program, r *kit.Report) *c04Ctx {
 			}
 		}
 	}
-	for _, m := range p.Methods("internal/crypto", "SessionKey") {
-		for _, c := range kit.Calls(m) {
-			if c04IsSeal(c) {
-				cx.encrypt = m
-			}
-		}
-	}
+	// the exported SessionKey method that (transitively, inside internal/crypto) reaches AEAD.Seal
+	cx.encrypt = sessionSealEntry(p)
 	r.Require(cx.encrypt != nil, "anchor-unresolved: SessionKey method calling cipher.AEAD.Seal")
 	cx.owners = p.FieldOwners("internal/protocol")
 	if len(r.Floors) > 0 {
